@@ -242,6 +242,8 @@ pub struct Sem<'a> {
     loop_defs: Vec<(String, usize, String, Vec<i64>)>,
     /// records defined by the defs of the multiclass body being written (relative name, class)
     mc_records: Vec<(String, Option<String>)>,
+    /// classes a header has declared (`class K;`) for the root to define
+    pending_fwd: Vec<String>,
     /// inherited field declarations that some record declared again
     redeclared: std::collections::BTreeSet<usize>,
     wrote_unset: bool,
@@ -297,6 +299,7 @@ impl<'a> Sem<'a> {
             hidden: Vec::new(),
             uninit: Default::default(),
             redeclared: Default::default(),
+            pending_fwd: Vec::new(),
             mc_records: Vec::new(),
             loop_values: Vec::new(),
             loop_defs: Vec::new(),
@@ -1709,7 +1712,24 @@ impl<'a> Sem<'a> {
     }
 
     fn class_stmt(&mut self) {
-        let name = self.fresh("K");
+        // a header may declare a class that the root defines (`class K;` there, `class K<…> {…}` here):
+        // two declarations in two files
+        if self.cur != 0 && self.rng.chance(1, 8) && self.on("forward-declared-in-header") {
+            let name = self.fresh("K");
+            let doc = self.doc_comment();
+            let start = self.stmt_begin();
+            self.w("class ");
+            let fwd = self.declare(DeclKind::Class, &name, None, doc, None);
+            self.w(";");
+            self.stmt_end("Class", start, Some(fwd), true, None);
+            self.pending_fwd.push(name);
+            return;
+        }
+        let from_header = if self.cur == 0 && !self.pending_fwd.is_empty() && self.rng.chance(1, 2) { self.pending_fwd.pop() } else { None };
+        let name = match from_header {
+            Some(n) => n,
+            None => self.fresh("K"),
+        };
         // a forward declaration first (`class K;` / `class K {}`): a declaration of its own, with its own
         // outline entry; every use of the name that follows the definition means the definition
         if self.rng.chance(1, 6) && self.on("forward-declared-class") {
